@@ -72,7 +72,8 @@ theorem follow_secure {S : Std} {p : Patron} {t : Target} (ip : Str) (h : Secure
         · exact absurd ⟨h.1, hc⟩ hnd
       have htls : t.secured = true := by rw [ht]; simp [hsch]
       have hsec : Secure { p with conn := { ip := ip, port := t.port, tls := t.secured },
-                                  req := { p.req with hostname := t.hostname, port := t.port, scheme := t.scheme, body := [] } } :=
+                                  req := { p.req with hostname := t.hostname, port := t.port, scheme := t.scheme, body := [] },
+                                  unsent := [] } :=
         ⟨hsch, htls⟩
       have := transmitRedirect_secure (S := S) t.path (updateQargsQuery S [] t.query).1 t.fragment hsec
       refine ⟨this.1, ?_⟩
@@ -133,7 +134,13 @@ theorem serviceResponse_secure {S : Std} {p : Patron} (r : Resp) (h : Secure p) 
 theorem step_secure {S : Std} {p : Patron} (o : Op) (h : Secure p) :
     Secure (step S p o).p ∧ ∀ e ∈ (step S p o).es, e.secure := by
   cases o with
-  | request q => exact serviceRequests_secure (by exact h)
+  | request q =>
+    have hq : Secure ({ p with queue := p.queue ++ [q] } : Patron) := h
+    have := serviceRequests_secure (S := S) hq
+    simp only [step]
+    split
+    · exact this
+    · exact this
   | response r =>
     simp only [step]
     have ha := serviceResponse_secure (S := S) r h
@@ -142,7 +149,7 @@ theorem step_secure {S : Std} {p : Patron} (o : Op) (h : Secure p) :
     · have hb := serviceRequests_secure (S := S) ha.1
       refine ⟨hb.1, ?_⟩
       intro e he
-      simp only [List.mem_append] at he
+      simp only [drain_es, List.mem_append] at he
       rcases he with he | he
       · exact ha.2 e he
       · exact hb.2 e he
@@ -200,7 +207,8 @@ theorem follow_reconnect {S : Std} {p : Patron} {t : Target} {ip : Str}
       ∧ (follow S p t ip).p.req.scheme = t.scheme
       ∧ s.host = hostHeader t.hostname t.port ∧ s.method = p.req.method
       ∧ SameBooks p (follow S p t ip).p ∧ (follow S p t ip).p.waited = true
-      ∧ s.target = buildTarget S t.path (updateQargsQuery S [] t.query).1 ∧ s.body = [] := by
+      ∧ s.target = buildTarget S t.path (updateQargsQuery S [] t.query).1 ∧ s.body = []
+      ∧ (follow S p t ip).p.unsent = [(⟨ip, t.port, t.secured⟩, s)] := by
   have hm := (mustReconnect_iff p ip t).2 hd
   unfold follow at hok ⊢
   simp only [hm, if_true] at hok ⊢
@@ -211,13 +219,14 @@ theorem follow_reconnect {S : Std} {p : Patron} {t : Target} {ip : Str}
     simp only [hdown, if_false] at hok
     rcases transmitRedirect_cases S
         { p with conn := ⟨ip, t.port, t.secured⟩,
-                 req := { p.req with hostname := t.hostname, port := t.port, scheme := t.scheme, body := [] } }
+                 req := { p.req with hostname := t.hostname, port := t.port, scheme := t.scheme, body := [] },
+                 unsent := [] }
         t.path (updateQargsQuery S [] t.query).1 t.fragment with ⟨e, he⟩ | ⟨r', s, hb, he⟩
     · rw [he] at hok; simp at hok
     · rw [he]
       have hbo := build_ok hb
       exact ⟨s, rfl, rfl, hbo.2.1, hbo.2.2.1, hbo.1, hbo.2.2.2.2.2.2.1, hbo.2.2.2.2.2.1,
-        ⟨rfl, rfl, rfl, rfl, rfl⟩, rfl, hbo.2.2.2.2.2.2.2.2.2.2, by simpa using hbo.2.2.2.2.2.2.2.1⟩
+        ⟨rfl, rfl, rfl, rfl, rfl⟩, rfl, hbo.2.2.2.2.2.2.2.2.2.2, by simpa using hbo.2.2.2.2.2.2.2.1, rfl⟩
 
 /-- shape of a followed redirect that keeps the connection -/
 theorem follow_same {S : Std} {p : Patron} {t : Target} {ip : Str}
@@ -228,7 +237,8 @@ theorem follow_same {S : Std} {p : Patron} {t : Target} {ip : Str}
       ∧ (follow S p t ip).p.req.scheme = p.req.scheme
       ∧ s.host = hostHeader p.req.hostname p.req.port ∧ s.method = p.req.method
       ∧ SameBooks p (follow S p t ip).p ∧ (follow S p t ip).p.waited = true
-      ∧ s.target = buildTarget S t.path (updateQargsQuery S [] t.query).1 ∧ s.body = [] := by
+      ∧ s.target = buildTarget S t.path (updateQargsQuery S [] t.query).1 ∧ s.body = []
+      ∧ (follow S p t ip).p.unsent = p.unsent ++ [(p.conn, s)] := by
   have hm : mustReconnect p ip t = false := by
     cases h : mustReconnect p ip t
     · rfl
@@ -241,7 +251,7 @@ theorem follow_same {S : Std} {p : Patron} {t : Target} {ip : Str}
     rw [he]
     have hbo := build_ok hb
     exact ⟨s, rfl, rfl, hbo.2.1, hbo.2.2.1, hbo.1, hbo.2.2.2.2.2.2.1, hbo.2.2.2.2.2.1,
-      ⟨rfl, rfl, rfl, rfl, rfl⟩, rfl, hbo.2.2.2.2.2.2.2.2.2.2, by simpa using hbo.2.2.2.2.2.2.2.1⟩
+      ⟨rfl, rfl, rfl, rfl, rfl⟩, rfl, hbo.2.2.2.2.2.2.2.2.2.2, by simpa using hbo.2.2.2.2.2.2.2.1, rfl⟩
 
 /-- **C34, reconnect iff the authority differs**: a redirect that is followed closes the connection and
 opens a new one (to the resolved address and port of the Location, TLS iff its scheme is https) exactly
@@ -370,7 +380,8 @@ theorem step_redirect {S : Std} {p : Patron} {r : Resp}
         obtain ⟨hb, hwt, hs1, hd0, hnst⟩ := hro
         have hsq : serviceRequests S (serviceResponse S p r).p = ⟨(serviceResponse S p r).p, [], none⟩ := by
           unfold serviceRequests; simp [hwt]
-        simp only [hsq, List.append_nil]
+        simp only [hsq, List.append_nil, drain_redirects, drain_responses, drain_waited, drain_redirectable, drain_queue,
+          drain_es]
         refine ⟨?_, ?_, hwt, ?_, ?_, hs1, hd0⟩
         · rw [hb.redirects]
         · rw [hb.responses]
@@ -404,7 +415,7 @@ theorem step_final {S : Std} {p : Patron} {f : Resp}
     (hw : p.waited = true) (hq : p.queue = []) (hst : redirectStatus f.status = false)
     (hok : (step S p (.response f)).err = none) (hns : Effect.stall ∉ (step S p (.response f)).es) :
     step S p (.response f)
-      = ⟨{ p with responses := p.responses ++ [(recOf p f, p.redirects)], redirects := [], waited := false },
+      = ⟨{ p with responses := p.responses ++ [(recOf p f, p.redirects)], redirects := [], waited := false, unsent := [] },
          [Effect.deliver], none⟩ := by
   have hsr : serviceResponse S p f
         = ⟨{ p with responses := p.responses ++ [(recOf p f, p.redirects)], redirects := [], waited := false },
@@ -421,7 +432,7 @@ theorem step_final {S : Std} {p : Patron} {f : Resp}
   rcases hsr with hsr | hsr | hsr
   · rw [hsr]
     simp only []
-    unfold serviceRequests
+    unfold serviceRequests drain
     simp [hq]
   · cases herr : (serviceResponse S p f).err with
     | some e => simp [herr] at hok
@@ -584,7 +595,12 @@ theorem C34_location_errors_contained (S : Std) (ops : List Op) (p : Patron) :
       (step S p o).err ≠ some .invalidURL ∧ (step S p o).err ≠ some .gaiError := by
     intro p o
     cases o with
-    | request q => exact serviceRequests_err S _
+    | request q =>
+      have := serviceRequests_err S { p with queue := p.queue ++ [q] }
+      simp only [step]
+      split
+      · exact this
+      · exact this
     | response r =>
       have hsr : (serviceResponse S p r).err ≠ some .invalidURL ∧ (serviceResponse S p r).err ≠ some .gaiError := by
         unfold serviceResponse
@@ -645,9 +661,9 @@ theorem C34_followed_request (S : Std) (p : Patron) (t : Target) (ip : Str)
       ∧ s.target = buildTarget S t.path (updateQargsQuery S [] t.query).1
       ∧ s.host = (if Differs p ip t then hostHeader t.hostname t.port else hostHeader p.req.hostname p.req.port) := by
   by_cases hd : Differs p ip t
-  · obtain ⟨s, hes, hc, _, _, _, hh, hm, _, _, htg, hb⟩ := follow_reconnect hok hd
+  · obtain ⟨s, hes, hc, _, _, _, hh, hm, _, _, htg, hb, _⟩ := follow_reconnect hok hd
     refine ⟨_, s, by rw [hes]; rfl, hc.symm, hm, hb, htg, by simp [hd, hh]⟩
-  · obtain ⟨s, hes, hc, _, _, _, hh, hm, _, _, htg, hb⟩ := follow_same hok hd
+  · obtain ⟨s, hes, hc, _, _, _, hh, hm, _, _, htg, hb, _⟩ := follow_same hok hd
     refine ⟨_, s, by rw [hes]; rfl, hc.symm, hm, hb, htg, by simp [hd, hh]⟩
 
 /-- **C34, exact target — partial**: *given* these laws of `urllib.parse` for the target at hand (hypotheses:
@@ -845,6 +861,132 @@ example : (run cpy pSec [.response ⟨302, some "http://a.test:80/q?z?k=v".toLis
     ∧ (run cpy pSec [.response rBracket]).err = none
     ∧ (step cpy pSec (.response rBracket)).es = [Effect.deliver] := by
   decide
+
+/-! ## what is still queued for sending belongs to the connection in use -/
+
+/-- every entry of the connector's transmit queue was built for the connection the connector points at -/
+def Owned (p : Patron) : Prop := ∀ cs ∈ p.unsent, cs.1 = p.conn
+
+theorem transmitRedirect_owned {S : Std} {p : Patron} (path : Str) (qargs : List (Str × Str)) (fragment : Str)
+    (h : Owned p) : Owned (transmitRedirect S p path qargs fragment).p := by
+  rcases transmitRedirect_cases S p path qargs fragment with ⟨e, he⟩ | ⟨r', s, _, he⟩
+  · rw [he]; exact h
+  · rw [he]
+    intro cs hcs
+    simp only [List.mem_append, List.mem_singleton] at hcs
+    rcases hcs with hcs | rfl
+    · exact h cs hcs
+    · rfl
+
+theorem transmitRequest_owned {S : Std} {p : Patron} (q : Request) (h : Owned p) : Owned (transmitRequest S p q).p := by
+  rcases transmitRequest_cases S p q with ⟨e, he⟩ | ⟨r', s, _, he⟩
+  · rw [he]; exact h
+  · rw [he]
+    intro cs hcs
+    simp only [List.mem_append, List.mem_singleton] at hcs
+    rcases hcs with hcs | rfl
+    · exact h cs hcs
+    · rfl
+
+theorem serviceRequests_owned {S : Std} {p : Patron} (h : Owned p) : Owned (serviceRequests S p).p := by
+  unfold serviceRequests
+  split
+  · exact h
+  · split
+    · exact h
+    · exact transmitRequest_owned _ (by exact h)
+
+theorem follow_owned {S : Std} {p : Patron} {t : Target} (ip : Str) (h : Owned p) : Owned (follow S p t ip).p := by
+  unfold follow
+  simp only []
+  split
+  · split
+    · exact h
+    · exact transmitRedirect_owned _ _ _ (by intro cs hcs; cases hcs)
+  · exact transmitRedirect_owned _ _ _ h
+
+theorem redirect_owned {S : Std} {p : Patron} (h : Owned p) : Owned (redirect S p).p := by
+  unfold redirect
+  split
+  · exact h
+  · split
+    · exact h
+    · split
+      · exact h
+      · exact follow_owned _ h
+
+theorem serviceResponse_owned {S : Std} {p : Patron} (r : Resp) (h : Owned p) : Owned (serviceResponse S p r).p := by
+  have hp' : Owned ({ p with redirects := p.redirects ++ [recOf p r] } : Patron) := h
+  unfold serviceResponse
+  split
+  · exact h
+  · split
+    · exact h
+    · split
+      · exact h
+      · split
+        · rcases tryRedirect_cases S p r with ⟨htr, _⟩ | ⟨_, htr⟩
+          · rw [htr]; exact redirect_owned hp'
+          · rw [htr]; exact h
+        · exact h
+
+theorem step_owned {S : Std} {p : Patron} (o : Op) (h : Owned p) : Owned (step S p o).p := by
+  cases o with
+  | request q =>
+    have hq : Owned ({ p with queue := p.queue ++ [q] } : Patron) := h
+    simp only [step]
+    split
+    · intro cs hcs; cases hcs
+    · exact serviceRequests_owned hq
+  | response r =>
+    simp only [step]
+    split
+    · exact serviceResponse_owned r h
+    · intro cs hcs; cases hcs
+
+/-- **C34, nothing is sent to the wrong host** (all histories, all standard-library behaviours, every pattern of
+partial sends): at every moment each request — or unsent remainder of a request — waiting in the connector's
+transmit queue was built for the connection the connector points at.  In particular the remainder of a request
+that was only partly sent when its redirect arrived is never carried over to the new host. -/
+theorem C34_unsent_belongs_to_connection (S : Std) (ops : List Op) (p : Patron) (h : Owned p) :
+    Owned (run S p ops).p := by
+  induction ops generalizing p with
+  | nil => exact h
+  | cons o os ih =>
+    simp only [run]
+    split
+    · exact step_owned o h
+    · exact ih _ (step_owned o h)
+
+/-- **C34, a new connection starts with the reissued request**: when a followed redirect replaces the connection,
+the new connector's transmit queue holds exactly the reissued request — whatever part of the redirected request was
+still unsent is dropped with the old connector — so the first bytes the new host receives are its request line;
+when the connection is kept, the reissued request is queued behind what was still unsent (the rest of the
+redirected request's body completes that message first). -/
+theorem C34_new_connection_starts_clean (S : Std) (p : Patron) (t : Target) (ip : Str)
+    (hok : (follow S p t ip).err = none) :
+    (Differs p ip t → ∃ s, (follow S p t ip).es
+          = [Effect.close, Effect.open ⟨ip, t.port, t.secured⟩, Effect.send ⟨ip, t.port, t.secured⟩ s]
+        ∧ (follow S p t ip).p.unsent = [(⟨ip, t.port, t.secured⟩, s)])
+    ∧ (¬ Differs p ip t → ∃ s, (follow S p t ip).es = [Effect.send p.conn s]
+        ∧ (follow S p t ip).p.unsent = p.unsent ++ [(p.conn, s)]) := by
+  constructor
+  · intro hd
+    obtain ⟨s, hes, _, _, _, _, _, _, _, _, _, _, hu⟩ := follow_reconnect hok hd
+    exact ⟨s, hes, hu⟩
+  · intro hd
+    obtain ⟨s, hes, _, _, _, _, _, _, _, _, _, _, hu⟩ := follow_same hok hd
+    exact ⟨s, hes, hu⟩
+
+/-- non-vacuity: a POST the socket took only partly, then a redirect to another host: the remainder is gone, the new
+connection's queue is the reissued request; and the invariant's hypothesis holds for a fresh Patron -/
+example : Owned pWit
+    ∧ ((step cpy { pWit with waited := false } (.request ⟨"POST".toList, "/p".toList, [], [1, 2, 3], false⟩)).p.unsent.map
+          (fun cs => (cs.1, cs.2.method, cs.2.body))) = [(pWit.conn, "POST".toList, [1, 2, 3])]
+    ∧ (let p1 := (step cpy { pSec with waited := false } (.request ⟨"POST".toList, "/p".toList, [], [1, 2, 3], false⟩)).p
+       ((serviceResponse cpy p1 rHop).p.unsent.map (fun cs => (cs.1, cs.2.method, cs.2.target)))
+         = [(⟨"10.0.0.2".toList, 443, true⟩, "POST".toList, "/x?k=v".toList)]) := by
+  refine ⟨(by intro cs hcs; cases hcs), (by decide), (by decide)⟩
 
 /-! ## construction -/
 
